@@ -20,6 +20,20 @@ pub fn main(args: &[String]) -> i32 {
         .enable_all()
         .build()
         .unwrap();
+    // XSV_HOOK_SLEEP="<sync point>:<ms>[,...]": stretch a race window deterministically
+    if let Ok(spec) = std::env::var("XSV_HOOK_SLEEP") {
+        let table: Vec<(String, u64)> = spec
+            .split(',')
+            .filter_map(|e| e.split_once(':').map(|(n, ms)| (n.to_string(), ms.parse().unwrap_or(0))))
+            .collect();
+        xs::verif::set_callback(Some(std::sync::Arc::new(move |name, _tag, _frame| {
+            for (n, ms) in &table {
+                if n == name {
+                    std::thread::sleep(std::time::Duration::from_millis(*ms));
+                }
+            }
+        })));
+    }
     let store = Store::new(path.clone());
     let engine = xs::nu::Engine::new().expect("nu engine");
     rt.block_on(async {
